@@ -29,6 +29,169 @@ def has(src, *texts):
     return all(_n(t) in ns for t in texts)
 
 
+# ------------------------------------------------------------------------------------------------
+# source normalisation shared by gen_c18 / gen_c19: the translator should not care about maintainer style
+# ------------------------------------------------------------------------------------------------
+import copy
+
+
+class _Subst(ast.NodeTransformer):
+    def __init__(self, mapping):
+        self.mapping = mapping
+
+    def visit_Name(self, node):
+        if isinstance(node.ctx, ast.Load) and node.id in self.mapping:
+            return copy.deepcopy(self.mapping[node.id])
+        return node
+
+
+def subst(node, mapping):
+    """copy of `node` with every loaded Name in `mapping` replaced by the mapped AST"""
+    return ast.fix_missing_locations(_Subst(mapping).visit(copy.deepcopy(node)))
+
+
+def _body(fn):
+    return [st for st in fn.body if not (isinstance(st, ast.Expr) and isinstance(st.value, ast.Constant))]
+
+
+def _module_helpers(mod, exclude=()):
+    """same-module functions that are straight-line: (optional) `if c: name = e` / assignments, then one `return e`"""
+    out = {}
+    for n in mod.body:
+        if isinstance(n, ast.FunctionDef) and n.name not in exclude and not n.decorator_list and not n.args.vararg and not n.args.kwarg:
+            b = _body(n)
+            if b and isinstance(b[-1], ast.Return) and b[-1].value is not None and all(
+                    isinstance(st, (ast.Assign, ast.AugAssign)) or (isinstance(st, ast.If) and not st.orelse and all(
+                        isinstance(t, (ast.Assign, ast.AugAssign)) for t in st.body)) for st in b[:-1]):
+                out[n.name] = n
+    return out
+
+
+def _bind(fn, call):
+    """parameter name -> argument AST for `call` of `fn` (positional, keyword, defaults)"""
+    params = [a.arg for a in fn.args.args]
+    m = {}
+    for k, a in enumerate(call.args):
+        m[params[k]] = a
+    for kw in call.keywords:
+        m[kw.arg] = kw.value
+    nd = len(fn.args.defaults)
+    for k, d in enumerate(fn.args.defaults):
+        m.setdefault(params[len(params) - nd + k], d)
+    if set(m) != set(params):
+        raise Untranslatable(f'cannot bind the arguments of {fn.name}')
+    return m
+
+
+def inline_helpers(fn, mod, only=None, exclude=('_multi_dot',)):
+    """copy of `fn` in which calls to same-module straight-line helpers are inlined symbolically:
+    * a helper that is a single `return <expr>` is substituted wherever it is called;
+    * `target = helper(...)` with a multi-statement helper is replaced by the helper's statements (locals renamed, reassigned
+      parameters turned into locals) followed by `target = <returned expression>`.
+    `only`: predicate on the helper name (default: private helpers, i.e. names starting with `_`)."""
+    helpers = _module_helpers(mod, exclude=set(exclude) | {fn.name})
+    only = only or (lambda nm: nm.startswith('_'))
+    fn = copy.deepcopy(fn)
+    counter = [0]
+
+    class ExprInline(ast.NodeTransformer):
+        def visit_Call(self, node):
+            self.generic_visit(node)
+            if isinstance(node.func, ast.Name) and node.func.id in helpers and only(node.func.id):
+                h = helpers[node.func.id]
+                b = _body(h)
+                if len(b) == 1:
+                    return subst(b[0].value, _bind(h, node))
+            return node
+
+    def expand(stmts):
+        out = []
+        for st in stmts:
+            if isinstance(st, (ast.For, ast.While, ast.If)):
+                st.body = expand(st.body)
+                st.orelse = expand(st.orelse)
+                out.append(st)
+                continue
+            call = st.value if isinstance(st, (ast.Assign, ast.Return)) and isinstance(getattr(st, 'value', None), ast.Call) else None
+            if call is not None and isinstance(call.func, ast.Name) and call.func.id in helpers and only(call.func.id) \
+                    and len(_body(helpers[call.func.id])) > 1:
+                h = helpers[call.func.id]
+                b = copy.deepcopy(_body(h))
+                m = _bind(h, call)
+                counter[0] += 1
+                stored = {n.id for x in b for n in ast.walk(x) if isinstance(n, ast.Name) and isinstance(n.ctx, ast.Store)}
+                ren, pre = {}, []
+                for nm in stored:
+                    if nm in m and isinstance(m[nm], ast.Name):
+                        ren[nm] = m[nm].id          # a reassigned parameter bound to a plain name: work on that name directly
+                    else:
+                        ren[nm] = f'{nm}__{h.name.strip("_")}{counter[0]}'
+                        if nm in m:
+                            pre.append(ast.Assign(targets=[ast.Name(id=ren[nm], ctx=ast.Store())], value=m[nm], lineno=st.lineno))
+                mapping = {k: v for k, v in m.items() if k not in stored}
+                mapping.update({k: ast.Name(id=v, ctx=ast.Load()) for k, v in ren.items()})
+
+                class Ren(ast.NodeTransformer):
+                    def visit_Name(self, node):
+                        if isinstance(node.ctx, ast.Store) and node.id in ren:
+                            return ast.Name(id=ren[node.id], ctx=ast.Store())
+                        return node
+                body = [ast.fix_missing_locations(Ren().visit(subst(x, mapping))) for x in b]
+                ret = body.pop().value
+                out += [ast.fix_missing_locations(x) for x in pre] + expand(body)
+                new = copy.copy(st)
+                new.value = ret
+                out.append(ast.fix_missing_locations(new))
+                continue
+            out.append(st)
+        return out
+
+    for _ in range(4):           # helpers calling helpers
+        fn = ast.fix_missing_locations(ExprInline().visit(fn))
+        fn.body = expand(fn.body)
+    return fn
+
+
+def symexec(stmts, env=None):
+    """symbolic execution of straight-line assignments: name -> AST of its final value in terms of the names that are never
+    assigned (parameters, results of tuple-unpacked calls).  Conditional expressions are kept; other statements are skipped."""
+    env = dict(env or {})
+    for st in stmts:
+        if isinstance(st, ast.Assign) and len(st.targets) == 1:
+            t = st.targets[0]
+            if isinstance(t, ast.Name):
+                env[t.id] = subst(st.value, env)
+            elif isinstance(t, ast.Tuple) and isinstance(st.value, ast.Tuple) and len(t.elts) == len(st.value.elts) \
+                    and all(isinstance(e, ast.Name) for e in t.elts):
+                vals = [subst(v, env) for v in st.value.elts]
+                for e, v in zip(t.elts, vals):
+                    env[e.id] = v
+            elif isinstance(t, ast.Tuple):
+                for e in t.elts:
+                    if isinstance(e, ast.Name):
+                        env.pop(e.id, None)          # unpacked from a call: stays an opaque name
+        elif isinstance(st, ast.AugAssign) and isinstance(st.target, ast.Name):
+            cur = env.get(st.target.id, ast.Name(id=st.target.id, ctx=ast.Load()))
+            env[st.target.id] = ast.BinOp(left=cur, op=st.op, right=subst(st.value, env))
+    return env
+
+
+def dict_items(fn, name):
+    """{key: value AST} of a local dict built as `name = {...}`, `name = dict(k=v)` or `name = dict(); name[k] = v`"""
+    out = {}
+    for n in ast.walk(fn):
+        if isinstance(n, ast.Assign) and len(n.targets) == 1:
+            t = n.targets[0]
+            if isinstance(t, ast.Name) and t.id == name:
+                if isinstance(n.value, ast.Dict):
+                    out.update({k.value: v for k, v in zip(n.value.keys, n.value.values) if isinstance(k, ast.Constant)})
+                elif isinstance(n.value, ast.Call) and ast.unparse(n.value.func) == 'dict':
+                    out.update({k.arg: k.value for k in n.value.keywords})
+            elif isinstance(t, ast.Subscript) and ast.unparse(t.value) == name and isinstance(t.slice, ast.Constant):
+                out[t.slice.value] = n.value
+    return out
+
+
 def lit(v):
     if isinstance(v, bool):
         raise Untranslatable(f'bool literal {v}')
@@ -49,8 +212,9 @@ def lit(v):
 class VTr:
     """typed expression translator; env: python text -> (lean term, type) with type in {'s','v','m'}"""
 
-    def __init__(self, env, funcs=None):
+    def __init__(self, env, funcs=None, rowsel=()):
         self.env = dict(env)
+        self.rowsel = set(rowsel)      # names of index arrays that merely select the active rays of the batch: x[idx] is x per ray
         self.denoms = []
         self.funcs = dict(funcs or {})     # python callee text -> callable(list of (lean, type), {kw: (lean, type)}) -> (lean, type)
 
@@ -85,6 +249,8 @@ class VTr:
     def subscript(self, e):
         sl = _n(ast.unparse(e.slice))
         x, t = self.expr(e.value)
+        if isinstance(e.slice, ast.Name) and e.slice.id in self.rowsel:
+            return x, t
         if sl in (':,np.newaxis', '...,np.newaxis'):
             return x, t              # (N,) -> (N,1): broadcast of a per-ray scalar / column view of a per-ray vector
         if t == 'v' and sl in ('...,0', '...,1', '...,2', ':,0', ':,1', ':,2', '0', '1', '2'):
@@ -127,6 +293,10 @@ class VTr:
             (a, ta), (b, tb) = self.expr(e.args[0]), self.expr(e.args[1])
             if ta == tb == 'v':
                 return f'(V3.dot {a} {b})', 's'
+        if f in ('np.square', 'truenp.square') and len(e.args) == 1:
+            x, t = self.expr(e.args[0])
+            if t == 's':
+                return f'({x} * {x})', 's'
         if f in ('np.sqrt', 'truenp.sqrt') and len(e.args) == 1:
             x, t = self.expr(e.args[0])
             if t == 's':
@@ -151,10 +321,15 @@ class VTr:
             (m, tm), (v, tv) = self.expr(mm.args[0]), self.expr(mm.args[1])
             if tm == 'm' and tv == 'v' and _n(ast.unparse(mm.args[1])).endswith('[...,np.newaxis]'):
                 return f'(M3.mulVec {m} {v})', 'v'
-        if f == 'abs' and len(e.args) == 1:
+        if f in ('abs', 'np.abs', 'np.absolute', 'truenp.abs', 'np.fabs') and len(e.args) == 1:
             x, t = self.expr(e.args[0])
             if t == 's':
                 return f'(absK {x})', 's'
+        if f in ('np.broadcast_to', 'truenp.broadcast_to') and len(e.args) == 2:
+            return self.expr(e.args[0])          # a per-ray constant broadcast to the batch
+        if f in ('np.array', 'np.asarray', 'truenp.array') and len(e.args) == 1 and isinstance(e.args[0], (ast.List, ast.Tuple)) \
+                and len(e.args[0].elts) == 1:
+            return self.expr(e.args[0].elts[0])   # `np.array([1.0], dtype=...)`: that number
         raise Untranslatable(f'call {ast.unparse(e)}')
 
 
@@ -324,7 +499,15 @@ def generate(repo):
         if ast.unparse(cl.args[3]) != 'surf.R':
             return False
         rt = cg.args[3].id
-        vals = [_n(ast.unparse(n.value)) for n in ast.walk(fn) if isinstance(n, ast.Assign) and ast.unparse(n.targets[0]) == rt]
+        vals = []
+        for n in ast.walk(fn):
+            if isinstance(n, ast.Assign) and ast.unparse(n.targets[0]) == rt:
+                if isinstance(n.value, ast.IfExp):
+                    if _n(ast.unparse(n.value.test)) not in ('surf.RisNone', 'surf.RisnotNone'):
+                        return None
+                    vals += [_n(ast.unparse(n.value.body)), _n(ast.unparse(n.value.orelse))]
+                else:
+                    vals.append(_n(ast.unparse(n.value)))
         if sorted(vals) == ['None', 'surf.R.T'] or vals == ['surf.R.T']:
             return True
         if 'surf.R' in vals:
@@ -335,7 +518,7 @@ def generate(repo):
     # ---------------------------------------------------------------- frames
     def frame(fname, pre):
         def build():
-            fn = get_def(sm, fname)
+            fn = inline_helpers(get_def(sm, fname), sm)
             out = []
             for withR in (True, False):
                 tr = VTr({'XYZ': ('X', 'v'), 'P': ('P', 'v'), 'S': ('S', 'v'), 'R': ('R', 'm')})
@@ -403,16 +586,20 @@ def generate(repo):
     # ---------------------------------------------------------------- Surface.sag_normal
     def sag_normal():
         fn = get_def(sf, 'Surface.sag_normal')
-        src = ast.unparse(fn)
-        assert has(src, 'z, Fx, Fy = self.FFp(x, y)', 'Fz = np.array([1.0], dtype=config.precision)',
-                   'Fz = np.broadcast_to(Fz, Fx.shape)')
-        der = [n for n in ast.walk(fn) if isinstance(n, ast.Assign) and ast.unparse(n.targets[0]) == 'der'][0].value
-        assert ast.unparse(der.func) == 'np.stack' and ast.unparse(der.keywords[0].value) == '1'
-        tr = VTr({'Fx': ('fx', 's'), 'Fy': ('fy', 's'), 'Fz': ('(1 : K)', 's')})
+        b = _body(fn)
+        first = b[0]
+        assert isinstance(first, ast.Assign) and isinstance(first.targets[0], ast.Tuple) and len(first.targets[0].elts) == 3 \
+            and ast.unparse(first.value) == 'self.FFp(x, y)'
+        zn, fxn, fyn = [e.id for e in first.targets[0].elts]
+        env = symexec(b[1:])
+        (ret,) = find_returns(fn)
+        ret = subst(ret, env)
+        assert isinstance(ret, ast.Tuple) and len(ret.elts) == 2 and ast.unparse(ret.elts[0]) == zn
+        der = ret.elts[1]
+        assert ast.unparse(der.func) in ('np.stack', 'truenp.stack') and ast.unparse(der.keywords[0].value) == '1'
+        tr = VTr({fxn: ('fx', 's'), fyn: ('fy', 's')})
         cells = [tr.expr(c)[0] for c in der.args[0].elts]
         assert len(cells) == 3
-        (ret,) = find_returns(fn)
-        assert has(ast.unparse(ret), 'z, der')
         return f'def normalOfGrad (fx fy : K) : V3 K := ⟨{cells[0]}, {cells[1]}, {cells[2]}⟩'
     g.item('Surface.sag_normal', 'prysm/x/raytracing/surfaces.py:Surface.sag_normal',
            lambda: get_def(sf, 'Surface.sag_normal'), sag_normal,
@@ -443,11 +630,30 @@ def generate(repo):
     def conic_ffp():
         fn = get_def(sf, 'Surface.conic')
         ffp = [n for n in fn.body if isinstance(n, ast.FunctionDef) and n.name == 'FFp'][0]
-        src = ast.unparse(ffp)
-        ok = has(src, 'r, t = cart_to_polar(x, y, vec_to_grid=False)', 'rsq = r * r',
-                 "z = conic_sag(params['c'], params['k'], rsq)", "dr = conic_sag_der(params['c'], params['k'], r)",
-                 'dx, dy = surface_normal_from_cylindrical_derivatives(dr, 0, r, t)', 'return z, dx, dy')
-        return True if ok else None
+        pm = dict_items(fn, 'params')
+        if not (set(pm) >= {'c', 'k'} and ast.unparse(pm['c']) == 'c' and ast.unparse(pm['k']) == 'k'):
+            return None
+        b = _body(ffp)
+        if not (isinstance(b[0], ast.Assign) and has(ast.unparse(b[0]), 'r, t = cart_to_polar(x, y, vec_to_grid=False)')):
+            return None
+        env = symexec(b[1:])
+        (ret,) = find_returns(ffp)
+        ret = subst(ret, env)
+        # the gradient comes out of one tuple-unpacked call: find it
+        calls = [st for st in b if isinstance(st, ast.Assign) and isinstance(st.targets[0], ast.Tuple) and isinstance(st.value, ast.Call)
+                 and ast.unparse(st.value.func) == 'surface_normal_from_cylindrical_derivatives']
+        if not (isinstance(ret, ast.Tuple) and len(ret.elts) == 3 and len(calls) == 1):
+            return None
+        gx, gy = [e.id for e in calls[0].targets[0].elts]
+        args = [_n(ast.unparse(subst(a, env))) for a in calls[0].value.args]
+        z = _n(ast.unparse(ret.elts[0]))
+        if [ast.unparse(e) for e in ret.elts[1:]] != [gx, gy]:
+            return None
+        ok = (z == _n("conic_sag(params['c'], params['k'], r * r)") and args[0] == _n("conic_sag_der(params['c'], params['k'], r)")
+              and args[2:] == ['r', 't'])
+        if not ok:
+            return None
+        return args[1] == '0'          # a rotationally symmetric surface has no azimuthal derivative
     g.fact('conicUsesSagDerAndZeroAzimuthal', 'prysm/x/raytracing/surfaces.py:Surface.conic', conic_ffp)
 
     # ---------------------------------------------------------------- conic sag and derivative (phi=None branch)
@@ -490,7 +696,8 @@ def generate(repo):
         ffp = [n for n in fn.body if isinstance(n, ast.FunctionDef) and n.name == 'FFp'][0]
         assert [a.arg for a in ffp.args.args] == ['x', 'y']
         src = ast.unparse(fn)
-        assert has(src, "params['c'] = c", "params['k'] = k", "params['dx'] = dx", "params['dy'] = dy")
+        pm = dict_items(fn, 'params')
+        assert {k_: ast.unparse(v_) for k_, v_ in pm.items()} == {'c': 'c', 'k': 'k', 'dx': 'dx', 'dy': 'dy'}
         env = {'x': ('x', 's'), 'y': ('y', 's'), "params['c']": ('c', 's'), "params['k']": ('k', 's'),
                "params['dx']": ('dx', 's'), "params['dy']": ('dy', 's')}
         funcs = {'phi_spheroid': lambda a, kw: (f'(phiSpheroid sqrt {a[0][0]} {a[1][0]} {a[2][0]})', 's'),
@@ -580,26 +787,67 @@ def generate(repo):
     def newton():
         fn = get_def(sm, 'newton_raphson_solve_s')
         loop = [n for n in fn.body if isinstance(n, ast.For)][0]
-        want = ('Pj', 'Xj', 'Yj', 'Zj', 'Fj', 'Fpj', 'sjp1', 'delta')
-        stmts = [s for s in loop.body if isinstance(s, ast.Assign) and ast.unparse(s.targets[0]) in want]
-        assert [ast.unparse(s.targets[0]) for s in stmts] == list(want)
-        src = ast.unparse(loop)
-        assert has(src, 'sagj, r = FFp(Xj, Yj)', 'scale = np.maximum(1, abs(Pj).max(axis=1))', 'rays_which_converged = delta < eps * scale',
-                   'Pj_out[insert_mask] = Pj[rays_which_converged]', 'r_out[insert_mask] = r[rays_which_converged]',
-                   'sj[mask] = sjp1')
-        env = {'P1[mask]': ('P1', 'v'), 'S_mask': ('S', 'v'), 'sj_bcast': ('sj', 's'), 'sj_mask': ('sj', 's'),
-               'sagj': ('sag', 's'), 'r': ('r', 'v')}
-        tr = VTr(env)
-        lets, _ = run_block(stmts, tr)
+        # the index array of the rays still iterating: `<name> = np.arange(nrays)` before the loop
+        act = [st.targets[0].id for st in fn.body if isinstance(st, ast.Assign) and isinstance(st.targets[0], ast.Name)
+               and _n(ast.unparse(st.value)) == 'np.arangenrays']
+        assert len(act) == 1
+        act = act[0]
+        # `sag, r = FFp(X, Y)`: the only tuple-unpacked call of the loop
+        ffp = [st for st in loop.body if isinstance(st, ast.Assign) and isinstance(st.targets[0], ast.Tuple)
+               and isinstance(st.value, ast.Call) and ast.unparse(st.value.func) == 'FFp']
+        assert len(ffp) == 1 and len(ffp[0].targets[0].elts) == 2
+        sagn, rn = [e.id for e in ffp[0].targets[0].elts]
+        k_ffp = loop.body.index(ffp[0])
+        env0 = symexec(loop.body[:k_ffp])
+        fargs = [subst(a, env0) for a in ffp[0].value.args]
+        env = symexec(loop.body[k_ffp + 1:], env0)
+        # the point: the first argument pair of FFp are its x and y components
+        tr = VTr({'P1': ('P1', 'v'), 'S': ('S', 'v'), 'sj': ('sj', 's'), sagn: ('sag', 's'), rn: ('r', 'v')}, rowsel={act})
+        # find the names by their roles: the converged test is the only comparison with `eps`
+        conv = [(nm, v) for nm, v in env.items() if isinstance(v, ast.Compare) and 'eps' in ast.unparse(v)]
+        assert len(conv) == 1
+        convn, cmpv = conv[0]
+        assert isinstance(cmpv.ops[0], ast.Lt) and len(cmpv.ops) == 1
+        delta_ast, tol_ast = cmpv.left, cmpv.comparators[0]
+        # tolerance = eps * np.maximum(1, |Pj|.max(axis=1)) in either order
+        assert isinstance(tol_ast, ast.BinOp) and isinstance(tol_ast.op, ast.Mult)
+        sc = tol_ast.right if ast.unparse(tol_ast.left) == 'eps' else tol_ast.left
+        assert ast.unparse(tol_ast.left) == 'eps' or ast.unparse(tol_ast.right) == 'eps'
+        assert isinstance(sc, ast.Call) and ast.unparse(sc.func) in ('np.maximum', 'truenp.maximum') and ast.unparse(sc.args[0]) in ('1', '1.0')
+        mx = sc.args[1]
+        assert isinstance(mx, ast.Call) and isinstance(mx.func, ast.Attribute) and mx.func.attr == 'max' \
+            and _n(ast.unparse(mx.keywords[0].value)) in ('1', '-1') and isinstance(mx.func.value, ast.Call) \
+            and ast.unparse(mx.func.value.func) in ('abs', 'np.abs', 'np.absolute')
+        point_ast = mx.func.value.args[0]
+        Pj, tP = tr.expr(point_ast)
+        assert tP == 'v'
+        assert tr.expr(fargs[0])[0] == f'{Pj}.x' and tr.expr(fargs[1])[0] == f'{Pj}.y'
+        # delta = |s_next - s|
+        assert isinstance(delta_ast, ast.Call) and ast.unparse(delta_ast.func) in ('abs', 'np.abs', 'np.absolute')
+        diff = delta_ast.args[0]
+        assert isinstance(diff, ast.BinOp) and isinstance(diff.op, ast.Sub) and tr.expr(diff.right)[0] == 'sj'
+        nxt = diff.left
+        assert isinstance(nxt, ast.BinOp) and isinstance(nxt.op, ast.Sub) and tr.expr(nxt.left)[0] == 'sj' \
+            and isinstance(nxt.right, ast.BinOp) and isinstance(nxt.right.op, ast.Div)
+        F, Fp = tr.expr(nxt.right.left)[0], tr.expr(nxt.right.right)[0]
+        snext, delta = tr.expr(nxt)[0], tr.expr(delta_ast)[0]
+        # bookkeeping, by role: s[active] = s_next; finished = active[conv]; outputs take the PRE-update point and its normal
+        src = _n(ast.unparse(loop))
+        nxtn = [nm for nm, v in env.items() if ast.dump(v) == ast.dump(nxt)][0]
+        ptn = [nm for nm, v in env.items() if ast.dump(v) == ast.dump(point_ast)][0]
+        fin = [nm for nm, v in env.items() if _n(ast.unparse(v)) == _n(f'{act}[{ast.unparse(cmpv)}]')]
+        assert len(fin) == 1
+        assert _n(f'sj[{act}] = {nxtn}') in src and _n(f'Pj_out[{fin[0]}] = {ptn}[{convn}]') in src \
+            and _n(f'r_out[{fin[0]}] = {rn}[{convn}]') in src and _n(f'{act} = {act}[~{convn}]') in src
         b = '(absK : K → K) (P1 S : V3 K) (sj sag : K) (r : V3 K)'
-        return (lean_def('newtonPoint', b, 'V3 K', lets[:1], tr.env['Pj'][0]) + '\n'
-                + lean_def('newtonF', b, 'K', lets, tr.env['Fj'][0]) + '\n'
-                + lean_def('newtonFp', b, 'K', lets, tr.env['Fpj'][0]) + '\n'
-                + lean_def('newtonNext', b, 'K', lets, tr.env['sjp1'][0]) + '\n'
-                + lean_def('newtonDelta', b, 'K', lets, tr.env['delta'][0]) + '\n'
-                # `np.maximum(1, abs(Pj).max(axis=1))`, read per ray (recognised by the two `has` patterns above)
-                + 'def newtonScale (absK : K → K) (maxK : K → K → K) (P : V3 K) : K := '
-                  'maxK (1 : K) (maxK (maxK (absK P.x) (absK P.y)) (absK P.z))')
+        return (f'def newtonPoint {b} : V3 K := {Pj}\n'
+                f'def newtonF {b} : K := {F}\n'
+                f'def newtonFp {b} : K := {Fp}\n'
+                f'def newtonNext {b} : K := {snext}\n'
+                f'def newtonDelta {b} : K := {delta}\n'
+                # `np.maximum(1, abs(Pj).max(axis=1))`, read per ray (shape recognised above)
+                'def newtonScale (absK : K → K) (maxK : K → K → K) (P : V3 K) : K := '
+                'maxK (1 : K) (maxK (maxK (absK P.x) (absK P.y)) (absK P.z))')
     b = '(absK : K → K) (P1 S : V3 K) (sj sag : K) (r : V3 K)'
     g.item('newton_raphson_solve_s', 'prysm/x/raytracing/spencer_and_murty.py:newton_raphson_solve_s',
            lambda: get_def(sm, 'newton_raphson_solve_s'), newton,
